@@ -246,6 +246,8 @@ def win(name, define, what, bounded, q, t, unwind_q, unwind_t, **kw):
     d = {"name": name, "props": ["C18"], "src": "h_win_quote.c", "contracts": [], "win": True, "tus": [],
          "defs": dict({define: None}, **q), "defs_thorough": t, "unwind": unwind_q, "unwind_thorough": unwind_t,
          "bounded": bounded, "what": what, "native": False, "timeout": 900, "timeout_thorough": 3600}
+    if define != "WIN_argv_join":
+        d["may_not_fire"] = ["C18/argv_join.buffer_has_room_for_every_argument"]
     d.update(kw)
     return d
 
